@@ -46,6 +46,7 @@ def check(run):
         run.guard("C08.2.positional", cfg, lambda: rule_positional(run, F, cfg))
         run.guard("C08.3.legacy-bijection", cfg, lambda: rule_legacy(run, F, cfg))
         run.guard("C08.4.header", cfg, lambda: rule_header(run, F, cfg))
+        run.guard("C08.1.state-coverage", cfg + "/engine", lambda: rule_engine_fields(run, F, cfg))
 
 
 def rule_coverage(run, F, cfg):
@@ -236,6 +237,22 @@ def rule_positional(run, F, cfg):
             run.ob("C08.2.positional", f"{sname.split('::')[-1]}[{k}]:{a['name']}", ok_n and ok_t,
                    f"position {k}: serializer `{a['name']}: {a['ty']}` vs deserializer "
                    f"`{b['name']}: {b['ty']}`", site=a.get("span", ""), config=cfg)
+    # #[serde(default)] may only appear on a suffix of the deserializer's fields: read from the derived
+    # visit_seq (missing element -> invalid_length(i) or Default::default())
+    for dname in (V0 + "DeserializeFormat", V0 + "NetworkFilterV0DeserializeFmt"):
+        vs = [f2 for n2, f2 in F.fns.items() if ("for " + dname + ">::deserialize::__Visitor") in n2 and n2.endswith("visit_seq")]
+        nf = len(F.fields(dname))
+        if len(vs) != 1:
+            run.ob("C08.2.positional", f"{dname.split('::')[-1]}:defaults", False,
+                   f"derived visit_seq of {dname} not found", status="UNDISCHARGED", config=cfg)
+            continue
+        v = vs[0]
+        required = sorted(int(v.expr_operand(t["args"][0])) for b, t in v.calls(r"invalid_length$") if v.expr_operand(t["args"][0]).isdigit())
+        defaulted = [i for i in range(nf) if i not in required]
+        ok = defaulted == list(range(nf - len(defaulted), nf)) and len(v.calls(r"next_element$")) == nf
+        run.ob("C08.2.positional", f"{dname.split('::')[-1]}:defaults-are-a-suffix", ok,
+               f"{dname}: fields with #[serde(default)] (missing element tolerated) are positions {defaulted} of "
+               f"{nf} — they must form a suffix, otherwise an old buffer shifts every later field", site=v.loc(0), config=cfg)
     run.floor("C08.2.positional", f"wire fields compared [{cfg}]",
               sum(len(F.fields(s)) for s, _ in pairs), 32)
     # inner list struct
@@ -329,6 +346,20 @@ def rule_legacy(run, F, cfg):
         run.ob("C08.3.legacy-bijection", f"restore:{fld}", f"arg:v.{fld}" in e,
                f"specific_rules.{fld} is restored from the dedicated wire field `{fld}` (value `{e[:100]}`)",
                site=de.loc(0), config=cfg)
+
+
+def rule_engine_fields(run, F, cfg):
+    e = F.fn("engine::Engine::deserialize")
+    wrote = set()
+    for b, i, s in e.statements():
+        if s["k"] == "assign" and s["pl"]["l"] == 1:
+            names = [p.get("n") for p in s["pl"]["p"] if isinstance(p, dict)]
+            if names:
+                wrote.add(names[0])
+    fields = [f["name"] for f in F.fields("engine::Engine")]
+    run.ob("C08.1.state-coverage", "Engine:fields-replaced", wrote == {"blocker", "cosmetic_cache"} and "resources" in fields,
+           f"Engine::deserialize replaces exactly blocker and cosmetic_cache ({sorted(wrote)}); `resources` is loaded "
+           f"separately and is left untouched (Engine fields: {fields})", site=e.loc(0), config=cfg)
 
 
 def rule_header(run, F, cfg):
